@@ -586,9 +586,11 @@ class DBusObject :
                 ifc = cache.get(interfaceName, None)
 
                 if ifc:
+                    # base classes may contribute further properties to the
+                    # same interface; the most derived declaration wins
                     for p in ifc.properties.values():
-                        addp(p)
-                    break
+                        if p.pname not in r:
+                            addp(p)
 
         else:
             for cache in self._iterIFaceCaches():
